@@ -113,6 +113,8 @@ def judge_v3(op, g, sp, out, full):
     judge_common(3, op, g, sp, out)
     if g.get("q2", "1") != "1":
         out.add("C15", "repeating the queries on the same object gave different results")
+    if "0" in g.get("vq", ""):
+        out.add("C14", "a lower-level view gives different results after the higher level was queried: vq=%s" % g.get("vq"))
     if full:
         judge_state_v3(op, g, out)
     if g.get("r") != "1" or sp.get("acc") != "1":
@@ -260,6 +262,8 @@ def judge_v2(op, g, sp, out, full):
     judge_common(2, op, g, sp, out)
     if g.get("q2", "1") != "1":
         out.add("C15", "repeating the queries on the same object gave different results")
+    if "0" in g.get("vq", ""):
+        out.add("C14", "a lower-level view gives different results after the higher level was queried: vq=%s" % g.get("vq"))
     if full:
         judge_state_v2(op, g, out)
     if g.get("r") != "1" or sp.get("acc") != "1":
